@@ -36,6 +36,13 @@ fn from_total_strategy() -> BS<FromTotal> {
         (1, (any::<bool>(), log_mag(127)).prop_map(|(s, m)| if s { -m } else { m }).boxed()),
         (1, prop::sample::select(vec![i128::MIN, i128::MAX, DMIN - 1, DMAX + 1, DMIN, DMAX, 0]).boxed()),
         (1, (-40_000i128..40_000, small_delta(3)).prop_map(|(k, d)| k * NPC + d).boxed()),
+        // +-2^k +- a few ns over the whole i128 range (limb boundaries of a 128-bit count)
+        (1, (0u32..127, any::<bool>(), small_delta(3)).prop_map(|(k, s, d)| (if s { -(1i128 << k) } else { 1i128 << k }).saturating_add(d)).boxed()),
+        // counts whose century quotient is k * 2^w + c with c a valid century field: a quotient narrowed to w bits
+        // before the range test would look in range
+        (1, (prop::sample::select(vec![15u32, 16, 31, 32, 63, 64]), prop::sample::select(vec![-3i128, -2, -1, 1, 2, 3]), edge_centuries(), prop_oneof![Just(0i128), (0i128..NPC)])
+            .prop_map(|(w, k, c, r)| ((k << w) + c).checked_mul(NPC).map(|v| v.saturating_add(r)).unwrap_or(if k < 0 { i128::MIN } else { i128::MAX }))
+            .boxed()),
     ])
     .prop_map(|x| FromTotal { x })
     .boxed()
@@ -175,9 +182,14 @@ fn field53() -> BS<u64> {
 }
 
 fn compose_strategy() -> BS<Compose> {
-    (any::<i8>(), proptest::array::uniform7(field53()))
-        .prop_map(|(sign, f)| Compose { sign, f })
-        .boxed()
+    let free = (any::<i8>(), proptest::array::uniform7(field53())).prop_map(|(sign, f)| Compose { sign, f }).boxed();
+    // every field at the top of its calendar range or one past it, the days at a whole number of centuries minus one:
+    // sums that land exactly on, just below or just above a century boundary with all fields "in range"
+    let top = |hi: u64| prop_oneof![2 => Just(hi), 2 => Just(hi + 1), 1 => 0..=hi + 1];
+    let calendar = (any::<i8>(), (0u64..=6, 0u64..=2), top(23), top(59), top(59), top(999), top(999), top(999))
+        .prop_map(|(sign, (k, dd), h, m, sec, ms, us, ns)| Compose { sign, f: [(k * 36_525 + dd).saturating_sub(1), h, m, sec, ms, us, ns] })
+        .boxed();
+    wunion(vec![(5, free), (1, calendar)])
 }
 
 const COMPOSE_W: [i128; 7] = [NS_D, NS_H, NS_MIN, NS_S, 1_000_000, 1_000, 1];
